@@ -86,6 +86,23 @@ pub fn op(req: &Value) -> Value {
             let (w, c, r2) = touches();
             json!({"compile": r, "touches": [w, c, r2]})
         }
+        // compile the same text `n` times in fresh scopes: the distinct outcomes (acceptance / error class+text)
+        "repeat" => {
+            let src = req["src"].as_str().unwrap_or("");
+            let n = req["n"].as_u64().unwrap_or(16);
+            let mut outcomes: Vec<(Value, u64)> = Vec::new();
+            for _ in 0..n {
+                let o = match compile(src) {
+                    Ok(_) => json!("ok"),
+                    Err(e) => e,
+                };
+                match outcomes.iter_mut().find(|(v, _)| *v == o) {
+                    Some((_, c)) => *c += 1,
+                    None => outcomes.push((o, 1)),
+                }
+            }
+            json!({"outcomes": outcomes.iter().map(|(v, c)| json!({"outcome": v, "count": c})).collect::<Vec<_>>()})
+        }
         "determinism" => {
             let src = req["src"].as_str().unwrap_or("");
             let get: Vec<String> = req["get"]
